@@ -1,5 +1,5 @@
 import Urandom.Model.Standard
-import Urandom.Generated.Scalar
+import Urandom.Generated.ScalarFloat01
 /-
 C11 (second module) - the bit packing of `Float01` AS TRANSLATED FROM THE SOURCE (`replace_exponent_f32` / `replace_exponent_f64` of
 `src/distr/float01.rs`, regenerated into `Urandom.Generated.Scalar.float01` on every run): the model's arithmetic formula
